@@ -175,6 +175,9 @@ func vfC05Run(br vfBridge, entKey uint64, victimIsClient bool, specs []vfFrameSp
 	if err != nil {
 		return "INFRA: reference session: " + err.Error(), false
 	}
+	// an application may call Read again after an error: whatever those calls
+	// hand over is judged by the same prefix oracle
+	s.Ep.KeepReading(3)
 	dir := byte(1)
 	if !victimIsClient {
 		dir = 0
@@ -366,7 +369,7 @@ func vfSpecLens(specs []vfFrameSpec) []int {
 func TestVerifC05Surgery(t *testing.T) {
 	vfSetup(t)
 	c := ev.For("C05")
-	c.Rule("surgery: the real client or server (victim) reads a stream produced by the reference peer: 1-7 generated frames (payload 0/1/1427/random, padding, unknown types, seed packets) followed by three genuine full frames; one surgery op in {flip one bit (length field, tag, body), insert 1-64 bytes, delete 1-64 bytes, drop / duplicate / swap whole frames, replay an earlier frame, splice the sealed body of an earlier (preferably equally long) frame behind a later frame's length field, swap two length fields, set a frame's decoded length to a chosen value (minimum 16, 17..20, L+-1, maximum, any) through the XOR-malleable length field with the body cut / extended to match, truncate}; the tampered stream is released in generated segments without EOF, reader buffer size generated; oracle: delivered bytes are always a prefix of the peer's payload and never exceed the payload of the frames that arrived intact before the first damaged frame; for every op but truncation Read has reported a non-EOF error by the time everything is read; no panic; non-trivial = at least one intact payload frame before and one frame after the damage; fingerprint = frames, op, chunk plan")
+	c.Rule("surgery: the real client or server (victim) reads a stream produced by the reference peer: 1-7 generated frames (payload 0/1/1427/random, padding, unknown types, seed packets) followed by three genuine full frames; one surgery op in {flip one bit (length field, tag, body), insert 1-64 bytes, delete 1-64 bytes, drop / duplicate / swap whole frames, replay an earlier frame, splice the sealed body of an earlier (preferably equally long) frame behind a later frame's length field, swap two length fields, set a frame's decoded length to a chosen value (minimum 16, 17..20, L+-1, maximum, any) through the XOR-malleable length field with the body cut / extended to match, truncate}; the tampered stream is released in generated segments without EOF, reader buffer size generated; oracle: delivered bytes are always a prefix of the peer's payload and never exceed the payload of the frames that arrived intact before the first damaged frame; for every op but truncation Read has reported a non-EOF error by the time everything is read; no panic; non-trivial = at least one intact payload frame before and one frame after the damage; fingerprint = frames, op, chunk plan; the victim application calls Read three more times after the first error, and what those calls deliver is judged by the same oracles")
 	c.Assume("Poly1305 forgery probability is negligible")
 	c.Floor("victim-client", 0.3)
 	c.Floor("victim-server", 0.3)
@@ -477,7 +480,7 @@ func vfC05EnumOne(size, bit int, victimIsClient bool) string {
 func TestVerifC05Blind(t *testing.T) {
 	vfSetup(t)
 	c := ev.For("C05")
-	c.Rule("blind: real client and real server; one side writes 2-4 bursts, the harness (not knowing the keys) flips / inserts / deletes bytes at a generated offset of the pending ciphertext, the sender then writes 3000 more bytes; oracle: receiver's bytes stay a prefix, never exceed the payload of frames complete before the damage offset, and Read reports a non-EOF error once everything has been read")
+	c.Rule("blind: real client and real server; one side writes 2-4 bursts, the harness (not knowing the keys) flips / inserts / deletes bytes at a generated offset of the pending ciphertext, the sender then writes 3000 more bytes; oracle: receiver's bytes stay a prefix, never exceed the payload of frames complete before the damage offset, and Read reports a non-EOF error once everything has been read; the receiver calls Read three more times after the first error")
 	rapid.Check(t, func(rt *rapid.T) {
 		rk := rapid.Uint64().Draw(rt, "randKey")
 		defer vfRandSeedKey(rk)()
@@ -497,6 +500,7 @@ func TestVerifC05Blind(t *testing.T) {
 		if d == 1 {
 			sender, receiver = p.Sv, p.Cl
 		}
+		receiver.KeepReading(3)
 		side := wire.Side(d)
 		var st vfDirState
 		base := p.N.Written(side)
